@@ -197,6 +197,14 @@ func (ex *Exec) pureResult(st *State, fn *ssa.Function, args []Value) Value {
 	}
 	var flat []*Term
 	ok := true
+	if recv := sig.Recv(); recv != nil {
+		// readers of mutable containers (bytes.Buffer, strings.Builder, ...): the result depends on contents the
+		// reference does not determine
+		switch typeStr(derefType(recv.Type())) {
+		case "bytes.Buffer", "strings.Builder", "bytes.Reader", "strings.Reader", "bufio.Reader", "bufio.Writer":
+			ok = false
+		}
+	}
 	for _, a := range args {
 		if a.Loc != nil {
 			ok = false
@@ -274,6 +282,9 @@ func (ex *Exec) applyContract(fr *Frame, st *State, c *FuncContract, pnames []st
 			ex.prove(fname, st, "pre", label, g, r.Text, pos)
 			ex.assumePath(st.pc, g)
 		}
+	}
+	if ex.inSpec == 0 && ex.topC != nil && ex.topC.Terminates {
+		ex.terminationAtCall(fr, st, c, env, site, fname, pos)
 	}
 	// post state
 	ex.havocModifies(st, c, env, fr)
@@ -455,9 +466,19 @@ func (ex *Exec) havocTarget(st *State, mt ModTarget, env *Env, owner string) {
 			if idx < 0 || emb != nil {
 				cfail("%s: no direct field %s", e, e.Name)
 			}
-			keys := refKeys(p.Elem())
 			off := fieldOffset(sst, idx)
 			n := len(layout(sst.Field(idx).Type()))
+			if x.Loc != nil {
+				// interior pointer (address of a local or of an embedded struct): the field is a sub-location
+				nl := *x.Loc
+				nl.Off += off
+				nl.T = sst.Field(idx).Type()
+				fv := freshValue("mod."+e.Name, nl.T)
+				ex.assumeTyped(st, fv)
+				ex.writeLoc(st, &nl, fv)
+				return
+			}
+			keys := refKeys(p.Elem())
 			for _, k := range keys[off : off+n] {
 				srt := keySortReg[k]
 				fv := Fresh(k+".mod", srt.Elem)
@@ -480,6 +501,14 @@ func (ex *Exec) havocTarget(st *State, mt ModTarget, env *Env, owner string) {
 	x := env.compile(e, 0)
 	switch xt := x.T.Underlying().(type) {
 	case *types.Pointer:
+		if x.Loc != nil {
+			nl := *x.Loc
+			nl.T = xt.Elem()
+			fv := freshValue("mod", nl.T)
+			ex.assumeTyped(st, fv)
+			ex.writeLoc(st, &nl, fv)
+			return
+		}
 		for _, k := range refKeys(xt.Elem()) {
 			srt := keySortReg[k]
 			st.heap.m[k] = Store(st.heap.Get(k, srt), x.one(), Fresh(k+".mod", srt.Elem))
@@ -665,6 +694,7 @@ func (ex *Exec) builtin(fr *Frame, st *State, b *ssa.Builtin, c *ssa.CallCommon,
 		}
 		m, k := args[0].one(), args[1].one()
 		d, l, _ := mapKeys(mt)
+		ex.ownWriteCheck(fr, st, &Loc{Kind: LRef, Ref: m, Keys: []string{d}, T: types.Typ[types.Bool]}, fname, token.NoPos)
 		ds := ArraySort(IntSort, ArraySort(ks, BoolSort))
 		dom := st.heap.Get(d, ds)
 		present := And(Not(Eq(m, IntLit(0))), Select(Select(dom, m), k))
@@ -840,4 +870,51 @@ func declaresFresh(c *FuncContract, i int, n int) bool {
 		walk(cl.E)
 	}
 	return found
+}
+
+// terminationAtCall: under a `terminates` contract a recursive call must arrive with a smaller function-level measure;
+// callees under contract that do not carry `terminates` themselves are recorded as assumed to terminate.
+func (ex *Exec) terminationAtCall(fr *Frame, st *State, c *FuncContract, env *Env, site, fname string, pos token.Pos) {
+	if c != ex.topC {
+		if !c.Terminates {
+			ex.assumedTerm[c.Key] = true
+		}
+		return
+	}
+	if c.Decreases == nil {
+		ex.prove(fname, st, "decreases", "rec:"+site, False, "recursive call in a function that must terminate: no function-level decreases clause", pos)
+		return
+	}
+	var top *Frame
+	for f := fr; f != nil; f = f.parent {
+		top = f
+	}
+	m0, err := ex.compileInt(top, top.entry, top.entry, c.Decreases.E)
+	if err != nil {
+		ex.bindingError(fname, "decreases", "rec:"+site, *c.Decreases, err)
+		return
+	}
+	var m *Term
+	func() {
+		defer func() {
+			if r := recover(); r != nil {
+				if ce, ok := r.(compileErr); ok {
+					err = fmt.Errorf("%s", ce.msg)
+					return
+				}
+				panic(r)
+			}
+		}()
+		v := env.compile(c.Decreases.E, 0)
+		if len(v.C) == 1 && v.C[0].Sort == IntSort {
+			m = v.C[0]
+		} else {
+			err = fmt.Errorf("measure is not an integer")
+		}
+	}()
+	if err != nil {
+		ex.bindingError(fname, "decreases", "rec:"+site, *c.Decreases, err)
+		return
+	}
+	ex.prove(fname, st, "decreases", "rec:"+site, And(Lt(m, m0), Ge(m0, IntLit(0))), "termination of the recursion: the measure "+c.Decreases.Text+" is non-negative and strictly smaller at the recursive call", pos)
 }
